@@ -345,6 +345,20 @@ def m_bytes_next2(eng, st, fr, t, name, rname, args):
     return mk_option(None)
 
 
+def m_bytes_nth2(eng, st, fr, t, name, rname, args):
+    it = _iter_of(eng, st, args[0])
+    n = eng.resolve(st, args[1])
+    if it is None or not isinstance(n, K) or not isinstance(it.fields.get(0), K):
+        return NotImplemented
+    data = _iter_data(st, it)
+    pos = it.fields[0].v + n.v
+    if pos < len(data):
+        it.fields[0] = K(pos + 1)
+        return mk_option(RefV(Cell(K(data[pos]), "byte@%d" % pos)))
+    it.fields[0] = K(len(data))
+    return mk_option(None)
+
+
 def _seq(eng, st, fr, t, items, closure, mkarg, decide, finish):
     """Run closure over items sequentially on every forked state.
     decide(index, value) -> ('stop', result) | ('go',) ; finish() -> result when exhausted.
@@ -949,11 +963,71 @@ def with_lists(models):
     return out
 
 
+# ---- integer helper methods on constants (saturating / wrapping / checked arithmetic, min / max) --------------------
+import re as _re
+
+
+def _int_ty(t):
+    m = _re.search(r"<impl ([iu](?:8|16|32|64|128|size))>", (t.get("callee") or {}).get("path") or "")
+    return m.group(1) if m else None
+
+
+def _int_model(op):
+    def m(eng, st, fr, t, name, rname, args):
+        ty = _int_ty(t)
+        rng = fdai._INT_RANGE.get(ty) if ty else None
+        vals = [eng.resolve(st, a) for a in args]
+        if rng is None or len(vals) != 2 or not all(isinstance(v, K) and isinstance(v.v, int) and not isinstance(v.v, bool) for v in vals):
+            return NotImplemented
+        a, b = vals[0].v, vals[1].v
+        lo, hi = rng
+        kind, f = op
+        try:
+            x = f(a, b)
+        except ZeroDivisionError:
+            return NotImplemented
+        inr = lo <= x <= hi
+        if kind == "saturating":
+            return K(min(max(x, lo), hi))
+        if kind == "wrapping":
+            return K((x - lo) % (hi - lo + 1) + lo)
+        if kind == "checked":
+            return mk_option(K(x)) if inr else mk_option(None)
+        return K(x)
+    return m
+
+
+INT_MODELS = {}
+for _k, _f in (("add", lambda a, b: a + b), ("sub", lambda a, b: a - b), ("mul", lambda a, b: a * b)):
+    for _kind in ("saturating", "wrapping", "checked"):
+        for _pfx in ("core::num::", "core::num::<impl usize>::", "core::num::<impl u8>::", "core::num::<impl isize>::", "core::num::<impl u32>::", "core::num::<impl i32>::", "core::num::<impl u64>::", "core::num::<impl i64>::", "core::num::<impl u16>::", "core::num::<impl i16>::"):
+            INT_MODELS["%s%s_%s" % (_pfx, _kind, _k)] = _int_model((_kind, _f))
+for _pfx in ("core::num::", "core::num::<impl usize>::", "core::num::<impl isize>::", "core::num::<impl u8>::"):
+    INT_MODELS[_pfx + "abs_diff"] = _int_model(("plain", lambda a, b: abs(a - b)))
+
+
+def m_ord_minmax(which):
+    def m(eng, st, fr, t, name, rname, args):
+        vals = [eng.resolve(st, a) for a in args]
+        if len(vals) != 2 or not all(isinstance(v, K) and isinstance(v.v, int) and not isinstance(v.v, bool) for v in vals):
+            return NotImplemented
+        return K(min(vals[0].v, vals[1].v) if which == "min" else max(vals[0].v, vals[1].v))
+    return m
+
+
+for _w in ("min", "max"):
+    INT_MODELS["core::cmp::Ord::" + _w] = m_ord_minmax(_w)
+    INT_MODELS["core::cmp::" + _w] = m_ord_minmax(_w)
+    INT_MODELS["core::cmp::impls::" + _w] = m_ord_minmax(_w)
+
+
 FOLD_MODELS = dict(BYTE_MODELS)
+FOLD_MODELS.update(INT_MODELS)
 FOLD_MODELS.update({
     "core::slice::iter": m_slice_iter,
     "core::slice::len": m_slice_len,
     "<core::slice::Iter<'a, T> as core::iter::Iterator>::next": m_bytes_next2,
+    "<core::slice::Iter<'a, T> as core::iter::Iterator>::nth": m_bytes_nth2,
     "<core::slice::Iter<'a, T> as core::iter::Iterator>::all": m_iter_all,
     "<core::slice::Iter<'a, T> as core::iter::Iterator>::rposition": m_iter_rposition,
     "<core::slice::Iter<'a, T> as core::iter::Iterator>::position": m_iter_position,
